@@ -290,6 +290,36 @@ int main(void)
 			unsigned char *m = unhex(t[3], &ml), *s = unhex(t[4], &sl);
 			printf("%d", (id >= 0 && id < NKEY && keys[id] && a) ? do_verify(keys[id], a, m, ml, s, sl) : 0);
 			free(m); free(s);
+		} else if (!strcmp(t[0], "xsign") && n >= 5) {
+			/* an ECDSA signature with the digest of ALG by a key of ANOTHER curve, framed r||s at WIDTH octets each:
+			 * what a party holding that (too small) key can produce for a stronger algorithm's name */
+			int id = atoi(t[1]);
+			const struct alginfo *a = find_alg(t[2]);
+			size_t ml, width = (size_t)atoi(t[4]);
+			unsigned char *m = unhex(t[3], &ml), *sig = NULL;
+			size_t sl = 0;
+			int ok = 0;
+			EVP_MD_CTX *c = EVP_MD_CTX_new();
+			if (id >= 0 && id < NKEY && keys[id] && a && a->kind == 2 && EVP_PKEY_base_id(keys[id]) == EVP_PKEY_EC &&
+			    EVP_DigestSignInit(c, NULL, a->md(), NULL, keys[id]) == 1 && EVP_DigestSign(c, NULL, &sl, m, ml) == 1) {
+				sig = malloc(sl);
+				if (EVP_DigestSign(c, sig, &sl, m, ml) == 1) {
+					const unsigned char *p = sig;
+					ECDSA_SIG *es = d2i_ECDSA_SIG(NULL, &p, (long)sl);
+					if (es && width >= ((size_t)EVP_PKEY_bits(keys[id]) + 7) / 8 && width <= 128) {
+						unsigned char out[256];
+						BN_bn2binpad(ECDSA_SIG_get0_r(es), out, (int)width);
+						BN_bn2binpad(ECDSA_SIG_get0_s(es), out + width, (int)width);
+						puthex(out, 2 * width);
+						ok = 1;
+					}
+					ECDSA_SIG_free(es);
+				}
+			}
+			if (!ok) printf("err");
+			EVP_MD_CTX_free(c);
+			ERR_clear_error();
+			free(sig); free(m);
 		} else if (!strcmp(t[0], "sign") && n >= 4) {
 			int id = atoi(t[1]);
 			const struct alginfo *a = find_alg(t[2]);
